@@ -29,6 +29,12 @@ CHECKS["C18"] = dict(
     note="Trusts TLC and the canonical rendering used to identify which operand max/min/clip returned; the pool defines the scope (NaN/Inf are not constructible).",
     design="§5 C18")
 
+CHECKS["C02"] = dict(
+    technique="TLA+ spec PanGrammar: precedence-climbing machine driven by the documented table computes the implied parenthesisation of every TLC-enumerated statement (all connector pairs/triples x operand shapes); replayed into the real parser: parse(w) must equal parse(Paren(w))",
+    text="Bounded-exhaustive: every ordered pair (thorough: triple) of the 23 infix operators, assignments, if/else, under jump keywords, with 18 operand shapes (prefix operators, chains, calls, indexing, grouping) is grouped by the specification's table and compared with the real parser's grouping, on the committed y.go and on y.go regenerated from parser.go.y when they differ.",
+    note="Trusts TLC, that grouping parentheses parse correctly, and ast String() as a faithful rendering of the tree; chained if is not determined by the table and is only logged.",
+    design="§5 C02")
+
 NOT_YET = {}
 
 def main():
